@@ -15,8 +15,8 @@ func init() {
 
 var ab = []string{"a", "b"}
 
-var errKindCycle = []int{scen.ESentinel, scen.EWrapped, scen.ECustom, scen.EUncomparable, scen.ENestedRun, scen.EJoined, scen.ETypedNil, scen.ETemporary, scen.EWrapped, scen.ECtxLike, scen.ENilSliceErr, scen.EIOEOF, scen.ENotTemporary, scen.ESameValue}
-var errKindName = map[int]string{scen.ESentinel: "sentinel", scen.EWrapped: "wrapped", scen.ECustom: "custom", scen.EUncomparable: "uncomparable-struct", scen.EJoined: "joined", scen.ETemporary: "temporary", scen.ECtxLike: "wraps-a-context-error", scen.ENestedRun: "wraps-a-sub-run-error", scen.ETypedNil: "typed-nil-pointer", scen.ENilSliceErr: "nil-slice-error", scen.EIOEOF: "io.EOF", scen.ENotTemporary: "not-temporary", scen.ESameValue: "same-value", scen.EChained: "chained"}
+var errKindCycle = []int{scen.ESentinel, scen.EWrapped, scen.ECustom, scen.EUncomparable, scen.ENestedRun, scen.EJoined, scen.ETypedNil, scen.ETemporary, scen.EWrapped, scen.ECtxLike, scen.ENilSliceErr, scen.EIOEOF, scen.ENotTemporary, scen.ESameValue, scen.EEmptyBatchErr}
+var errKindName = map[int]string{scen.ESentinel: "sentinel", scen.EWrapped: "wrapped", scen.ECustom: "custom", scen.EUncomparable: "uncomparable-struct", scen.EJoined: "joined", scen.ETemporary: "temporary", scen.ECtxLike: "wraps-a-context-error", scen.ENestedRun: "wraps-a-sub-run-error", scen.ETypedNil: "typed-nil-pointer", scen.ENilSliceErr: "nil-slice-error", scen.EIOEOF: "io.EOF", scen.ENotTemporary: "not-temporary", scen.ESameValue: "same-value", scen.EChained: "chained", scen.EEmptyBatchErr: "empty-batch-error"}
 
 // tableScenario builds the scenario of one point of the exhaustive space:
 // nn nodes, 2 actions, target of every (node, action) ∈ {unconnected, nil, each node}, per-node scripts.
@@ -179,6 +179,7 @@ func runC03(c *Cfg) {
 	mcs = append(mcs, selfLoopThenEndCases()...)
 	mcs = append(mcs, startlessBranchCases()...)
 	mcs = append(mcs, selfEmbeddedCases()...)
+	mcs = append(mcs, longLoopCases()...) // more than a thousand visits: the table alone decides when a run ends
 	parallel(c, len(mcs), func(i int) {
 		judgeFor(c, "C03", "connect-while-running", mcs[i])
 		if len(mcs[i].MidConnect) > 0 {
